@@ -255,10 +255,14 @@ Eval(G, e, env, txt, p) ==
       [] e[1] = "py" ->
            LET v == PyEval(e[2], env) IN IF v = Bad THEN Ill ELSE Ok(v, p, p)
       [] e[1] = "call" ->
-           IF e[2] \notin DOMAIN G.rules THEN Ill
-           ELSE LET ps == G.rules[e[2]].params
+           \* the callee is a template of the grammar, or a parameter bound to the name of one (higher-order rule)
+           LET callee == IF e[2] \in DOMAIN env
+                         THEN (IF env[e[2]][1] = "clo" /\ env[e[2]][2][1] = "ref" THEN env[e[2]][2][2] ELSE "")
+                         ELSE e[2] IN
+           IF callee \notin DOMAIN G.rules THEN Ill
+           ELSE LET ps == G.rules[callee].params
                     b  == BindArgs(G, ps, e[3], 1, 1, env, EmptyEnv) IN
-                IF b[1] # "env" THEN Ill ELSE EvalRule(G, e[2], b[2], txt, p)
+                IF b[1] # "env" THEN Ill ELSE EvalRule(G, callee, b[2], txt, p)
       [] e[1] = "optable" -> EvalOpTable(G, e, env, txt, p)
 
 (* positional arguments bind in order, keyword arguments by name.  An      *)
